@@ -15,6 +15,11 @@
      cfg_selfstack  (F12)  keep a separate stack for the self side (pushed by the union-on-left
                            and callable arms), resolve a self-side `Cycle` against it, and swap
                            the two stacks in contravariant positions
+     cfg_partial_name      (proposed, hooks/fix_partial_name.patch) ALL mode: an unnamed partial is
+                           not assignable to a named one
+     cfg_partial_any       (proposed, hooks/fix_F25_partial.patch) ANY mode: (Partial, Tuple) is
+                           answered by the swapped call; a label only the pattern partial names
+                           is unconstrained
    Fuel: `None` = out of fuel (the Rust recursion is bounded by the assumption set; the fuel is
    only there to make the definition structurally recursive). *)
 From Quiver Require Import Base Types.
@@ -25,7 +30,8 @@ Open Scope nat_scope.
 (* types.rs:187-196 *)
 Inductive union_mode := All | Any.
 
-Record rel_cfg := mk_cfg { cfg_retract : bool; cfg_selfstack : bool }.
+Record rel_cfg := mk_cfg { cfg_retract : bool; cfg_selfstack : bool;
+                           cfg_partial_name : bool; cfg_partial_any : bool }.
 
 Definition assumptions := list (nat * nat).
 Definition key_eqb (k1 k2 : nat * nat) : bool :=
@@ -153,7 +159,10 @@ Section Step.
     match fields2 with
     | [] => Some (true, A)
     | (fname2, ftype2) :: fields2' =>
-      match any_partial_field A ss ps fields1 fname2 ftype2 with
+      match (if cfg_partial_any cfg && (match mode with Any => true | All => false end)
+                && negb (existsb (fun f => Nat.eqb (fst f) fname2) fields1)
+             then Some (true, A)
+             else any_partial_field A ss ps fields1 fname2 ftype2) with
       | None => None
       | Some (false, A') => Some (false, A')
       | Some (true, A') => all_partial_partial A' ss ps fields1 fields2'
@@ -276,11 +285,18 @@ Section Step.
     (* 442-471: partial vs partial *)
     | TPartial name1 fields1, TPartial name2 fields2 =>
       let clash :=
-        match name1, name2 with
-        | Some n1, Some n2 => negb (Nat.eqb n1 n2)
-        | _, _ => false
-        end in
+        if cfg_partial_name cfg && (match mode with All => true | Any => false end)
+        then match name2 with Some _ => negb (opt_eqb name1 name2) | None => false end
+        else match name1, name2 with
+             | Some n1, Some n2 => negb (Nat.eqb n1 n2)
+             | _, _ => false
+             end in
       if clash then Some (false, A) else all_partial_partial A ss ps fields1 fields2
+    (* proposed ANY-mode arm: overlap is symmetric *)
+    | TPartial _ _, TTuple _ =>
+      if cfg_partial_any cfg && (match mode with Any => true | All => false end)
+      then rec A ps ss pattern_id self_id
+      else Some (false, A)
     (* 474-499: process types; `send_ok` and `receive_ok` are both evaluated before `&&` *)
     | TProcess send1 receive1, TProcess send2 receive2 =>
       let r_send :=
@@ -324,9 +340,11 @@ Fixpoint check_rel (cfg : rel_cfg) (P : registry) (mode : union_mode) (fuel : na
   end.
 
 (* the code as found at the pinned commit / with the proposed repairs *)
-Definition legacy_cfg : rel_cfg := mk_cfg false false.
-Definition f7_cfg : rel_cfg := mk_cfg true false.
-Definition fixed_cfg : rel_cfg := mk_cfg true true.
+Definition legacy_cfg : rel_cfg := mk_cfg false false false false.
+Definition f7_cfg : rel_cfg := mk_cfg true false false false.
+Definition fixed_cfg : rel_cfg := mk_cfg true true false false.          (* = /repo since 2246a47 *)
+Definition partial_cfg : rel_cfg := mk_cfg true true true true.          (* + the two proposed partial repairs *)
+Definition current_cfg : rel_cfg := fixed_cfg.
 
 (* types.rs:204-215 / 223-234 *)
 Definition is_compatible_with (cfg : rel_cfg) (fuel : nat) (P : registry) (a b : nat) : option bool :=
